@@ -1,0 +1,22 @@
+//go:build verif
+
+// Contracts for package topics, read by /verif/govc (comment-only file).
+
+package topics
+
+// ---- C05: predefined topic lookups ----
+// The specification of the lookup (from the property statement): the
+// client-specific entry when one exists, otherwise the "*" entry.
+//@ spec nameDefined(t PredefinedTopics, c string, id uint16) bool = (c in t && id in t[c]) || ("*" in t && id in t["*"])
+//@ spec nameSpec(t PredefinedTopics, c string, id uint16) string = ite(c in t && id in t[c], t[c][id], t["*"][id])
+
+//@ func (PredefinedTopics).GetTopicName
+//@   nopanic [C05]
+//@   ensures [C05] defined: result1 == nameDefined(t, clientID, topicID)
+//@   ensures [C05] value: result1 ==> result0 == nameSpec(t, clientID, topicID)
+//@   ensures [C05] undefined_empty: !result1 ==> len(result0) == 0
+
+//@ func (PredefinedTopics).GetTopicID
+//@   nopanic [C05]
+//@   ensures [C05] sound: result1 ==> nameDefined(t, clientID, result0) && nameSpec(t, clientID, result0) == topic
+//@   ensures [C05] none_zero: !result1 ==> result0 == 0
